@@ -313,9 +313,9 @@ def strain_cases(draw):
 
 # near-threshold: a direction 1e-3 .. 1e-12 degrees away from a cell edge / a close-packed direction
 _angle_near = st.sampled_from([b + sg * 10.0 ** -k for b in (0.0, 90.0, 180.0, 270.0, 60.0, 45.0) for k in (3, 6, 9, 12) for sg in (1, -1)])
-_angle = st.one_of(gens.nice(0.0, 360.0, 2), gens.nice(0.0, 360.0, 2), gens.nice(0.0, 360.0, 2), gens.nice(0.0, 360.0, 2),
-                   gens.nice(0.0, 360.0, 2), gens.nice(0.0, 360.0, 2), st.sampled_from([0.0, 90.0, 180.0, 60.0]),
-                   st.sampled_from([0.0, 90.0, 180.0, 60.0]), _angle_near)
+_anyangle = gens.nice(0.0, 360.0, 2)
+_angle = st.one_of(_anyangle, _anyangle, _anyangle, _anyangle, _anyangle, _anyangle, _anyangle, _anyangle, _anyangle, _anyangle,
+                   st.sampled_from([0.0, 90.0, 180.0, 60.0]), st.sampled_from([0.0, 90.0, 180.0, 60.0]), _angle_near)
 # ... and a slip of 1e-3 .. 1e-10 nearest-neighbour distances (almost no slip)
 _smag = st.one_of(gens.nice(0.01, 0.4, 4), gens.nice(0.01, 0.4, 4), gens.nice(0.01, 0.4, 4), gens.nice(0.01, 0.4, 4), gens.nice(0.01, 0.4, 4),
                   gens.nice(0.01, 0.4, 4), st.just(0.4), st.just(0.4), st.sampled_from([1e-3, 1e-4, 1e-6, 1e-8, 1e-10]))
@@ -351,7 +351,7 @@ def slip_cases(draw):
 
 # ----------------------------------------------------------------------------- displacement
 
-_umode = st.sampled_from(['F', 'F', 'F', 'slip', 'slip', 'random', 'random', 'random', 'big', 'big', 'decades', 'decades'])
+_umode = st.sampled_from(['F', 'F', 'F', 'F', 'F', 'slip', 'slip', 'random', 'random', 'random', 'big', 'big', 'decades', 'decades'])
 _boxref = st.sampled_from(['default', 'final', 'initial', 'none'])
 _amp = st.one_of(gens.nice(0.0, 0.45, 3), gens.nice(0.0, 0.45, 3), gens.nice(0.0, 0.45, 3), gens.nice(0.0, 0.45, 3), st.just(0.45),
                  st.sampled_from([1e-4, 1e-6, 1e-8, 1e-10, 1e-12]))
